@@ -327,13 +327,29 @@ func (r *rec) Receive(c *actor.Context) {
 	}
 	// observations inside the delivery
 	en := Entry{A: r.name, Inc: r.inc, Kind: kind, ID: id, MW: mwok, Seq: seq, Kids: []string{}, Alive: []string{}, Dn: []string{}}
-	for _, k := range c.Children() {
-		en.Kids = append(en.Kids, h.nameOf(k))
+	// a consistent snapshot when other actors move at the same time (free-running passes): the children table is read
+	// before and after the registry and has to be the same both times (a child leaves the table first, the registry
+	// second: a child that is in the table throughout was registered when the registry was read)
+	kidsNow := func() []string {
+		out := []string{}
+		for _, k := range c.Children() {
+			out = append(out, h.nameOf(k))
+		}
+		sort.Strings(out)
+		return out
 	}
-	sort.Strings(en.Kids)
-	for _, d := range h.desc(r.name) {
-		if h.registered(d) {
-			en.Alive = append(en.Alive, d)
+	for try := 0; try < 8; try++ {
+		k1 := kidsNow()
+		alive := []string{}
+		for _, d := range h.desc(r.name) {
+			if h.registered(d) {
+				alive = append(alive, d)
+			}
+		}
+		k2 := kidsNow()
+		en.Kids, en.Alive = k2, alive
+		if fmt.Sprint(k1) == fmt.Sprint(k2) {
+			break
 		}
 	}
 	en.Sreg = h.registered(r.name)
